@@ -9,10 +9,18 @@ from .core import Ctx, NeedsConcrete, PathAbort, PathResult, explore
 _G = {}
 
 
+class WorkerError(Exception):
+    pass
+
+
 def _worker(i):
     fn, analyse, kw = _G['fn'], _G['analyse'], _G['kw']
-    paths, ex, dt = explore(fn, prefix=_G['prefixes'][i], **kw)
-    return analyse(paths), ex, len(paths)
+    try:
+        paths, ex, dt = explore(fn, prefix=_G['prefixes'][i], **kw)
+        return analyse(paths), ex, len(paths)
+    except BaseException:      # a BaseException escaping a pool worker would hang the pool
+        import traceback
+        return WorkerError(traceback.format_exc()[-1500:]), False, 0
 
 
 def par_explore(fn, analyse, nprocs=16, frontier=48, tlimit=600.0, ieee_div=False, catch=(Exception,), max_paths=200000):
@@ -46,6 +54,8 @@ def par_explore(fn, analyse, nprocs=16, frontier=48, tlimit=600.0, ieee_div=Fals
         ctx = mp.get_context('fork')
         with ctx.Pool(min(nprocs, len(pending))) as pool:
             for out, ex, n in pool.imap_unordered(_worker, range(len(pending)), chunksize=1):
+                if isinstance(out, WorkerError):
+                    raise out
                 outs.append(out)
                 exhaustive = exhaustive and ex
                 total += n
